@@ -4,7 +4,7 @@ from .types import *
 
 class FnSpec:
     def __init__(self, qual, params=None, ret=None, requires=None, ensures=None, raises=None, loops=None,
-                 ghost=None, locals=None, modifies=None, witness=None, pure=False, exit_hints=None, call_ghosts=None, assigns=None):
+                 ghost=None, locals=None, modifies=None, witness=None, pure=False, exit_hints=None, call_ghosts=None, assigns=None, opaque_arith=False):
         self.qual = qual
         self.params = dict(params or {})         # name -> Ty  (includes ghost params)
         self.ret = ret
@@ -16,7 +16,7 @@ class FnSpec:
         self.locals = dict(locals or {})         # declared types of locals initialised with empty literals
         self.modifies = modifies                 # None = everything reachable from params may change; else list of path strings
         self.witness = witness
-        self.pure = pure
+        self.pure = pure; self.opaque_arith = opaque_arith
         self.assigns = list(assigns or [])       # fields this method definitely assigns before reading them (it may be called on a partially constructed object)
         self.call_ghosts = dict(call_ghosts or {})   # callee qualname -> {ghost param: expr in the caller's state}
         self.exit_hints = dict(exit_hints or {})   # proved at every normal exit, then assumed for the postconditions
